@@ -370,7 +370,15 @@ func (e *Exec) intrinsic(st *State, fn *ssa.Function, args []Value, callSite ssa
 		return ret(st, e.strEq(a, b)), true
 	case "unicode.Is":
 		if t, ok := args[1].(*Term); ok && !t.IsConst() {
-			return ret(st, e.unicodeIs(st, args[0].(*PtrV), t)), true
+			alts, ok := e.ptrAlts(args[0])
+			if !ok {
+				panic(unsupported("unicode.Is on a non-pointer table"))
+			}
+			r := c.False
+			for _, a := range alts {
+				r = c.Or(r, c.And(a.G, e.unicodeIs(st, a.P, t)))
+			}
+			return ret(st, r), true
 		}
 		return nil, false
 	case "math/bits.OnesCount64", "math/bits.OnesCount32", "math/bits.OnesCount16", "math/bits.OnesCount8", "math/bits.OnesCount":
